@@ -5,7 +5,7 @@ CONSTANTS NC = 3
  MaxLive = 2
  MaxSteps = 0
  RestartAnywhere = FALSE
- Touch = {0, 1, 2, 3}
+ Touch = {0}
  Dev = {}
 INVARIANTS TypeOK TopIsFullSort
 PROPERTIES RestartKeepsTop
